@@ -533,6 +533,8 @@ def rule_leaf_occupancy(ctx, rule='R15.13'):
 
 
 def run(ctx):
+    from . import edges
+    edges.rule_threshold_siblings(ctx, 'R01.13')     # one quantity, one literal, one line: leaf test of tree cells
     rule_leaf_occupancy(ctx)
     rule_update_when_flagged(ctx)
     rule_moments_every_time(ctx)
